@@ -112,6 +112,25 @@ theorem bad_key_rejected (fuel ti : Nat) (ctx : Env) (σ : ES) (k : Bytes) (v : 
   simp [executeTplUnbuffered, EStateM.run, bind, EStateM.bind, get, getThe, MonadStateOf.get, EStateM.get, hw, xerr,
     throw, throwThe, MonadExceptOf.throw, EStateM.throw]
 
+/-- **A context key (or global) that clashes with an exported macro is rejected — of the executed
+    template or of any template it extends** (D66): when all keys are identifiers and one of them is
+    the name of a macro exported somewhere along the inheritance chain, execution fails before
+    anything is rendered. -/
+theorem macro_clash_rejected (fuel ti : Nat) (ctx : Env) (σ : ES) (k : Bytes) (v : Val) (i : Nat)
+    (hids : (Env.update g ctx).find? (fun kv => !identOk kv.fst) = none)
+    (hmem : (k, v) ∈ Env.update g ctx)
+    (hi : i ∈ chainOf σ.cs.tpls (σ.cs.tpls.size + 1) ti)
+    (hexp : ((σ.cs.tpls[i]!).exported.lookup k).isSome = true) :
+    ∃ e, (executeTplUnbuffered T cfg g (fuel + 1) ti ctx).run σ = .error e σ ∧ e.kind = .exec := by
+  have hfind : ((Env.update g ctx).find? (fun kv =>
+      (chainOf σ.cs.tpls (σ.cs.tpls.size + 1) ti).any fun j => ((σ.cs.tpls[j]!).exported.lookup kv.1).isSome)).isSome := by
+    rw [List.find?_isSome]
+    exact ⟨(k, v), hmem, by simp only [List.any_eq_true]; exact ⟨i, hi, hexp⟩⟩
+  obtain ⟨w, hw⟩ := Option.isSome_iff_exists.mp hfind
+  refine ⟨{ kind := .exec, msg := "context key name clashes with macro" }, ?_, rfl⟩
+  simp [executeTplUnbuffered, EStateM.run, bind, EStateM.bind, get, getThe, MonadStateOf.get, EStateM.get, hids, hw, xerr,
+    throw, throwThe, MonadExceptOf.throw, EStateM.throw]
+
 /-- the regenerated effect table contains no store through
     `ExecutionContext.Public`, the `Globals` of a set or the `context`
     parameter of an Execute method (it is empty altogether) -/
